@@ -663,6 +663,11 @@ func (tc *twoChain) actExecutor(e *execActor) {
 		panic(err)
 	}
 	next := q.NextL1Sequence
+	if next == 0 {
+		// sequences start at 1: an executor that trusts this answer cannot relay anything
+		v := tc.fail([]string{"C06", "C08", "C04"}, "query.next-l1-sequence", "next-l1-sequence-query-zero", "the NextL1Sequence query answered 0 (the handler expects sequence %d)", tc.L2.m.NextL1Seq)
+		panic(core.FailNow{Inv: v.Inv, Key: v.Key, Msg: v.Msg})
+	}
 	var seqs []uint64
 	n := 1 + r.Intn(3)
 	for s := next; s < next+uint64(n) && s <= uint64(e.SeenL1); s++ {
